@@ -64,8 +64,9 @@ RULE = ("corpus/C16 first; exhaustive: every sequence of <=2 operations over an 
         "(deleted or replaced objects - aliases and plain objects with what they still contain - inserted again under their own name anywhere in "
         "the tree; live aliases replaced by a new alias with the same name and target) / bottom-up (detached construction with alloc+set, dead "
         "references) / malformed (empty keys, empty components, missing and over-long paths, self targets); implementation-only histories with "
-        "alias chains, .py/.pyi modules (stub merge), set/del THROUGH resolved aliases and dotted/tuple/item lookups ACROSS resolved aliases "
-        "compared with the chained lookup. "
+        "alias chains, .py/.pyi modules (stub merge), set/del THROUGH resolved aliases, alias objects moved to another container, and after EVERY "
+        "operation, for every resolved alias: names and every lookup spelling THROUGH the alias (get_member / [] x dotted / tuple, chained, one "
+        "name at a time, alias.members) compared with the final target's current members (identity of the wrapped object, wrapper listed). "
         "non-trivial = at least one operation succeeded and the final tree has depth >= 2 or an alias; distinct by canonical operation list")
 TRUSTED = ["abstraction: harness/props/c16.py:World.dump reads name, kind, parent, members (ordered), resolved target, target_path, "
            "aliases (sorted), modules_collection reachability and path of every object ever constructed in the history",
